@@ -76,9 +76,72 @@ def mutated_params(f):
     return out
 
 
+def position_masks(ctx, d8):
+    """`index` -- the positions of the chemicals that have group data, which the kernels use to gather x and scatter gamma -- is computed
+    as np.where(mask)[0] from a list `mask` filled inside a loop over the chemicals.  Position k of the mask means chemical k only if every
+    iteration that goes on to the next element appends exactly one entry.  Every function of the module that returns np.where(<list filled
+    in a loop>) is an instance."""
+    prog = ctx.prog
+    m = prog.module(AC)
+    n_inst = 0
+    for f in m.functions.values():
+        fn = prog.normal_form(f)
+        masks = set()
+        for r in walk_no_nested(fn):
+            if isinstance(r, ast.Return) and r.value is not None:
+                for c in ast.walk(r.value):
+                    if isinstance(c, ast.Call) and src(c.func) in ('np.where', 'np.nonzero', 'np.flatnonzero') and len(c.args) == 1 and isinstance(c.args[0], ast.Name):
+                        masks.add(c.args[0].id)
+        for name in sorted(masks):
+            inits = [n for n in walk_no_nested(fn) if isinstance(n, ast.Assign) and any(isinstance(t, ast.Name) and t.id == name for t in n.targets)]
+            if not (inits and all(isinstance(n.value, ast.List) and not n.value.elts for n in inits)):
+                continue
+
+            def is_append(st):
+                return isinstance(st, ast.Expr) and isinstance(st.value, ast.Call) and isinstance(st.value.func, ast.Attribute) \
+                    and st.value.func.attr == 'append' and isinstance(st.value.func.value, ast.Name) and st.value.func.value.id == name
+
+            def counts(stmts):
+                """-> (set of append counts on paths that reach the end of `stmts`, set of counts on paths that go on to the next element early)"""
+                falls, nexts = {0}, set()
+                for st in stmts:
+                    if not falls:
+                        break
+                    if is_append(st):
+                        falls = {c + 1 for c in falls}
+                    elif isinstance(st, ast.Continue):
+                        nexts |= falls
+                        falls = set()
+                    elif isinstance(st, (ast.Return, ast.Raise, ast.Break)):
+                        falls = set()
+                    elif isinstance(st, ast.If):
+                        fb, nb = counts(st.body)
+                        fo, no = counts(st.orelse)
+                        nexts |= {a + b for a in falls for b in nb | no}
+                        falls = {a + b for a in falls for b in fb | fo}
+                    elif isinstance(st, (ast.For, ast.While, ast.Try, ast.With)):
+                        if any(is_append(x) for x in ast.walk(st)):
+                            return {-1}, {-1}          # an append under a nested loop / handler: not judged
+                return falls, nexts
+            loops = [n for n in walk_no_nested(fn) if isinstance(n, ast.For) and any(is_append(x) for x in ast.walk(n))]
+            for lp in loops:
+                falls, nexts = counts(lp.body)
+                allc = falls | nexts
+                if -1 in allc:
+                    continue
+                n_inst += 1
+                if allc == {1}:
+                    d8.ok(f.qualname, 'every iteration over %s that goes on to the next element appends exactly one entry to the position mask %s' % (src(lp.iter), name), f, lp)
+                else:
+                    d8.fail(f.qualname, 'mask-misaligned', 'the position mask %s (positions taken with np.where) gets %s entries on some iteration over %s: from there on position '
+                            'k of the mask is no longer element k, and the gather / scatter of the kernels uses the wrong chemicals' % (name, sorted(allc), src(lp.iter)), f, lp)
+    return n_inst
+
+
 def run(ctx):
     prog = ctx.prog
     ctx.decided = [
+        'D8 the mask from which the positions of the chemicals with group data are taken (np.where) gets exactly one entry per chemical on every path through the loop',
         'D1 no kernel stores through its composition parameter',
         'D2 a kernel that mutates an array parameter is only called with a fresh copy',
         'D3 gather/scatter summaries of gamma_UNIFAC and gamma_modified_UNIFAC',
@@ -101,6 +164,8 @@ def run(ctx):
     d6 = ctx.rule('D6', 'combinatorial term: every c*ln(R) is paired with -c*R (necessary for Gibbs-Duhem)', floor=4)
     definite_assignment(ctx, d5)
     gibbs_duhem_pairing(ctx, d6)
+    d8 = ctx.rule('D8', 'a position mask built in a loop gets exactly one entry per element', floor=1)
+    position_masks(ctx, d8)
     d7 = ctx.rule('D7', 'the sub-composition handed to the group-contribution formulas is normalised by its own total', floor=4)
     normalised_subcomposition(ctx, d7)
     m = prog.module(AC)
